@@ -17,7 +17,8 @@ cls("pint.facets.plain.registry:RegistryCache",
             "conversion_factor": "Dict[Tuple[Map[Str,Num],Map[Str,Num]],Opt[Num]]"})
 cls("pint.facets.plain.registry:GenericPlainRegistry",
     fields={"_units": "Dict[Str,Ref[UnitDefinition]]", "_dimensions": "Dict[Str,Ref[DimensionDefinition]]",
-            "_cache": "Ref[RegistryCache]", "_non_int_type": "NumType"})
+            "_cache": "Ref[RegistryCache]", "_non_int_type": "NumType", "_on_redefinition": "Str",
+            "_prefixes": "Dict[Str,Ref[PrefixDefinition]]"})
 
 # ---- spec functions (theory/axioms.py)
 specfn("d1", ["Str", "Str"], "Num")
